@@ -170,6 +170,20 @@ impl ExpressionParser {
                     )));
                 }
                 Token::Number(v) => {
+                    // A negative literal directly after a value ("10 -3", "a-1"): the lexer can't know that
+                    // the sign is meant as binary operator, the value is added.
+                    let negative = match v {
+                        NumericToken::Integer(i) => *i < 0,
+                        NumericToken::Double(d) => d.is_sign_negative(),
+                    };
+                    let after_value = matches!(
+                        stack.last(),
+                        Some(ExpressionParserItem::SExpression(_))
+                            | Some(ExpressionParserItem::SToken(Token::Identifier(_)))
+                    );
+                    if negative && after_value {
+                        stack.push(ExpressionParserItem::SToken(Token::Operator(Operator::Plus)));
+                    }
                     stack.push(ExpressionParserItem::SExpression(Box::new(
                         ExpressionConstant::new(match v {
                             NumericToken::Integer(i) => Data::Integer(*i),
